@@ -19,11 +19,11 @@ import (
 
 type c09Case struct {
 	Prop    string `json:"property"`
-	Pattern string `json:"pattern"`           // Go-quoted when Quoted is set
-	Quoted  bool   `json:"quoted,omitempty"`  // Pattern holds strconv-quoted arbitrary bytes
-	Kind    string `json:"kind"`              // "compile" | "quotemeta"
-	Source  string `json:"source,omitempty"`  // generator provenance
-	Probe   string `json:"probe,omitempty"`   // haystack sample for Copy / Unmarshal checks
+	Pattern string `json:"pattern"`          // Go-quoted when Quoted is set
+	Quoted  bool   `json:"quoted,omitempty"` // Pattern holds strconv-quoted arbitrary bytes
+	Kind    string `json:"kind"`             // "compile" | "quotemeta"
+	Source  string `json:"source,omitempty"` // generator provenance
+	Probe   string `json:"probe,omitempty"`  // haystack sample for Copy / Unmarshal checks
 }
 
 type c09 struct{}
